@@ -196,6 +196,20 @@ func (view *View) group(ctx context.Context, scope *ReferenceScope, items []pars
 		return ConvertContextError(ctx.Err())
 	}
 
+	// The goroutines append the keys in the order in which they arrive at the mutex. Put the
+	// groups in the order of their first record, which is the order a single goroutine produces.
+	if 1 < gm.Number {
+		firstRecord := make(map[string]int, len(groupKeys))
+		for i := len(groupsList) - 1; 0 <= i; i-- {
+			for k, indices := range groupsList[i] {
+				firstRecord[k] = indices[0]
+			}
+		}
+		sort.Slice(groupKeys, func(i, j int) bool {
+			return firstRecord[groupKeys[i]] < firstRecord[groupKeys[j]]
+		})
+	}
+
 	for i := range groupsList {
 		for k := range groupsList[i] {
 			groupKeyCnt[k] = groupKeyCnt[k] + len(groupsList[i][k])
